@@ -300,6 +300,9 @@ func (p *refParser) term(depth int) (*Node, bool) {
 			return nil, false
 		}
 		p.pos++
+		if n.T != "and" && n.T != "or" {
+			n = and(n) // a parenthesised single term is a group of one
+		}
 		if neg {
 			return not(n), true
 		}
